@@ -105,10 +105,10 @@ def scatter(rng, core_parts, decos):
     return out + ''.join(slots[-1])
 
 
-def gen_note(rng, plain=False, in_chord=False):
+def gen_note(rng, plain=False, in_chord=False, accidentals=True):
     dur = gen_duration(rng, allow_grace=not in_chord)
     pitch = gen_pitch(rng)
-    acc = rng.choice([None, None, '#', '-', '##', '--', 'n', '#', '-'])
+    acc = rng.choice([None, None, '#', '-', '##', '--', 'n', '#', '-']) if accidentals else None
     if acc and not plain and rng.random() < 0.15:
         acc += rng.choice(['x', 'X', 'i', 'I', 'j', 'Z', 'y', 'yy', 'Y', 'YY'])
     decos = []
@@ -130,17 +130,17 @@ def gen_rest(rng, plain=False):
     return NoteDesc(dur, 'r', None, decos, text)
 
 
-def gen_kern_data(rng, spine, col, plain=False):
+def gen_kern_data(rng, spine, col, plain=False, chords=True, accidentals=True):
     r = rng.random()
     if r < 0.12:
         return Cell('null', '.', spine, col)
     if r < 0.27:
         n = gen_rest(rng, plain)
         return Cell('rest', n.text, spine, col, [n])
-    if r < 0.42:
-        notes = [gen_note(rng, plain, True) for _ in range(rng.choice([2, 2, 3]))]
+    if r < 0.42 and chords:
+        notes = [gen_note(rng, plain, True, accidentals) for _ in range(rng.choice([2, 2, 3]))]
         return Cell('chord', ' '.join(n.text for n in notes), spine, col, notes)
-    n = gen_note(rng, plain)
+    n = gen_note(rng, plain, False, accidentals)
     return Cell('note', n.text, spine, col, [n])
 
 
@@ -153,7 +153,7 @@ def gen_other_data(rng, htype, spine, col):
 
 
 def gen_score(rng, spines=None, measures=None, allow_splits=True, kern_only=False, plain=False, comments=True, opening_barline=None,
-              final_barline=None, signatures_first=True, mid_signatures=False, non_ascii=True, unknown_types=False):
+              final_barline=None, signatures_first=True, mid_signatures=False, non_ascii=True, unknown_types=False, chords=True, accidentals=True):
     """A well-formed score.  The live spine paths are tracked here (the reference model): every cell records the cell above it on
     its own path (both branches of a split -> the split cell; merged sub-spines -> the first join cell of their spine)."""
     nsp = spines if spines is not None else rng.choice([1, 1, 2, 2, 3, 4])
@@ -246,7 +246,7 @@ def gen_score(rng, spines=None, measures=None, allow_splits=True, kern_only=Fals
 
             def data(sid, col):
                 if headers[sid] == '**kern':
-                    return gen_kern_data(rng, sid, col, plain)
+                    return gen_kern_data(rng, sid, col, plain, chords, accidentals)
                 return gen_other_data(rng, headers[sid], sid, col)
             simple_row('data', data)
             if split_open is not False and (rng.random() < 0.6 or d == 2):
